@@ -139,8 +139,12 @@ fn evaluate_do_block_expr(
             source.clone(),
         )?;
 
-        // Set lambda name if assigning a lambda
-        if let Value::Lambda(lambda_ptr) = val {
+        // Name the lambda only when the right-hand side is the lambda expression itself.
+        // Any other lambda value is an existing function whose heap cell is shared with other
+        // handles; renaming it would change how it resolves its own name elsewhere.
+        if let Value::Lambda(lambda_ptr) = val
+            && matches!(value.node, Expr::Lambda { .. })
+        {
             let mut borrowed_heap = heap.borrow_mut();
             if let Some(HeapValue::Lambda(lambda_def)) = borrowed_heap.get_mut(lambda_ptr.index()) {
                 lambda_def.name = Some(ident.clone());
@@ -414,8 +418,12 @@ pub fn evaluate_ast(
                 ));
             }
 
-            // Set lambda name if assigning a lambda
-            if let Value::Lambda(lambda_ptr) = val {
+            // Name the lambda only when the right-hand side is the lambda expression itself.
+            // Any other lambda value is an existing function whose heap cell is shared with
+            // other handles; renaming it would change how it resolves its own name elsewhere.
+            if let Value::Lambda(lambda_ptr) = val
+                && matches!(value.node, Expr::Lambda { .. })
+            {
                 let mut borrowed_heap = heap.borrow_mut();
                 if let Some(HeapValue::Lambda(lambda_def)) =
                     borrowed_heap.get_mut(lambda_ptr.index())
